@@ -464,6 +464,42 @@ func main() {
 					return "hang"
 				}
 			}
+			// a consumer (the chunk server's handler, a cache) may hold a delivered chunk while the same session
+			// delivers others, larger and smaller: what it holds stays what was delivered
+			held := func() string {
+				done := make(chan string, 1)
+				go func() {
+					order := [][]byte{data, d3, data, d3, d3}
+					var got []*desync.Chunk
+					for _, b := range order {
+						c, err := rs.GetChunk(desync.NewChunk(b).ID())
+						if err != nil {
+							done <- classErr(err)
+							return
+						}
+						got = append(got, c)
+						if _, err := rs.GetChunk(missing); err == nil {
+							done <- "present"
+							return
+						}
+					}
+					for i, c := range got {
+						d, derr := c.Data()
+						if derr != nil || !bytes.Equal(d, order[i]) {
+							done <- "okbad"
+							return
+						}
+					}
+					done <- "ok"
+				}()
+				select {
+				case s := <-done:
+					return s
+				case <-time.After(20 * time.Second):
+					return "hang"
+				}
+			}
+			step("chunks held while the session delivers further chunks stay unchanged", held(), "ok")
 			step("HasChunk of a missing chunk is false without an error", has(missing), "false")
 			step("HasChunk of an existing chunk is true", has(chunk.ID()), "true")
 			// last (the server ends the session on a store failure): a chunk the server's store cannot read (its file
